@@ -91,6 +91,17 @@ def use_cache():
 
 def cached(name, producer, binary=True):
     """producer() -> python object; stored pickled under the tree key"""
+    if name in _MEM:
+        return _MEM[name]
+    obj = _cached(name, producer)
+    _MEM[name] = obj
+    return obj
+
+
+_MEM = {}
+
+
+def _cached(name, producer):
     path = os.path.join(cache_dir(), name + '.pkl')
     if use_cache() and os.path.exists(path):
         try:
